@@ -40,6 +40,7 @@ func analyseWorkers(p *Program, parent *ssa.Function) ([]workerSite, []Outcome, 
 	if err != nil {
 		return nil, outs, err
 	}
+	outs = atLeastAsLarge(e, parent, outs)
 	var sites []workerSite
 	group := 0
 	for _, o := range outs {
@@ -100,4 +101,54 @@ func analyseWorkers(p *Program, parent *ssa.Function) ([]workerSite, []Outcome, 
 		}
 	}
 	return sites, outs, nil
+}
+
+// atLeastAsLarge applies the domain of the image statements to the explored paths
+// of a function with a destination (draw.Image) and a source (image.Image)
+// parameter: the destination is at least as large as the source. A path taken
+// only when dst.Bounds() is narrower or lower than src.Bounds() is outside the
+// statement and dropped; a condition the premise implies is vacuous.
+func atLeastAsLarge(e *Engine, fn *ssa.Function, outs []Outcome) []Outcome {
+	var dst, src string
+	for _, pa := range fn.Params {
+		switch typeString(pa.Type()) {
+		case "image/draw.Image", "draw.Image":
+			dst = pa.Name()
+		case "image.Image":
+			src = pa.Name()
+		}
+	}
+	if dst == "" || src == "" {
+		return outs
+	}
+	ext := func(img, ax string) *Form {
+		return formAtom("." + ax + "(.Max(invoke:Bounds(" + img + ")))").Sub(formAtom("." + ax + "(.Min(invoke:Bounds(" + img + ")))"))
+	}
+	premise := []*BoolVal{
+		{Op: ">=", A: ext(dst, "X"), B: ext(src, "X")},
+		{Op: ">=", A: ext(dst, "Y"), B: ext(src, "Y")},
+	}
+	var keep []Outcome
+	for _, o := range outs {
+		drop := false
+		var conds []*BoolVal
+		for _, c := range o.St.conds {
+			plain := *c
+			plain.Src, plain.Exact = nil, nil
+			if e.refutes(premise, &plain) {
+				drop = true
+				break
+			}
+			if e.refutes(premise, plain.Not()) {
+				continue // implied by the premise
+			}
+			conds = append(conds, c)
+		}
+		if drop {
+			continue
+		}
+		o.St.conds = conds
+		keep = append(keep, o)
+	}
+	return keep
 }
